@@ -19,6 +19,11 @@ Theorem C13_remove_tags_match :
 Proof. vm_compute. reflexivity. Qed.
 Print Assumptions C13_remove_tags_match.
 
+(* removable void elements of the EPUB state machine (nothing is skipped after them) *)
+Theorem C13_void_remove_tags_match : sorted_mem_eq live_void_remove_tags_epub VOID_REMOVE_TAGS = true.
+Proof. vm_compute. reflexivity. Qed.
+Print Assumptions C13_void_remove_tags_match.
+
 (* the skip set handed to element_text by the three ODF extractors is the one the correspondence uses *)
 Theorem C13_odf_skip_tags_match :
   sorted_mem_eq live_ods_skip_tags ODF_SKIP && sorted_mem_eq live_odt_skip_tags ODT_SKIP
